@@ -427,6 +427,7 @@ type FuncContract struct {
 	File      string
 	Line      int
 	Guards    []string
+	Uses      []string
 	PkgPath   string
 	HavocAll  bool
 	Cover     bool
@@ -479,7 +480,14 @@ type Guarded struct {
 	PkgPath string
 }
 
+type Pred struct {
+	Name   string
+	Params []string
+	Body   CExpr
+}
+
 type ContractSet struct {
+	Preds   map[string]*Pred
 	Funcs   map[string]*FuncContract // key: pkgpath + "::" + name for func/trusted; name for extern
 	Externs map[string]*FuncContract
 	Specs   map[string]*SpecFunc
@@ -495,11 +503,11 @@ type ContractSet struct {
 func NewContractSet() *ContractSet {
 	return &ContractSet{
 		Funcs: map[string]*FuncContract{}, Externs: map[string]*FuncContract{},
-		Specs: map[string]*SpecFunc{}, Ghosts: map[string]*Ghost{}, Consts: map[string]Sort{},
+		Specs: map[string]*SpecFunc{}, Ghosts: map[string]*Ghost{}, Consts: map[string]Sort{}, Preds: map[string]*Pred{},
 	}
 }
 
-var topKeywords = map[string]bool{"func": true, "extern": true, "trusted": true, "spec": true, "ghost": true, "axiom": true, "lemma": true, "const": true, "guarded": true}
+var topKeywords = map[string]bool{"func": true, "extern": true, "trusted": true, "spec": true, "ghost": true, "axiom": true, "lemma": true, "const": true, "guarded": true, "pred": true}
 var clauseKeywords = map[string]bool{"requires": true, "ensures": true, "modifies": true, "loop": true, "safety": true, "pure": true, "noeffect": true, "for": true, "bounded": true, "havocall": true, "noreturn": true, "uses": true, "option": true}
 
 // ParseContractFile reads the //@ lines of a file. pkgPath is the import path
@@ -583,6 +591,8 @@ func (cs *ContractSet) ParseContractFile(path, pkgPath string) error {
 		case "uses":
 			if curLemma != nil {
 				curLemma.Uses = append(curLemma.Uses, splitList(rest)...)
+			} else if cur != nil {
+				cur.Uses = append(cur.Uses, splitList(rest)...)
 			}
 		case "safety":
 			cur.Safety = true
@@ -671,6 +681,20 @@ func (cs *ContractSet) ParseContractFile(path, pkgPath string) error {
 			}
 			cs.Specs[sf.Name] = sf
 			cs.SpecOrder = append(cs.SpecOrder, sf.Name)
+		case "pred":
+			curLemma, cur = nil, nil
+			// pred name(a, b) = expr
+			i := strings.Index(rest, "(")
+			j := strings.Index(rest, ")")
+			k := strings.Index(rest, "=")
+			if i < 0 || j < i || k < j {
+				return fail(fmt.Errorf("pred name(params) = expr"))
+			}
+			e, err := ParseCExpr(strings.TrimSpace(rest[k+1:]))
+			if err != nil {
+				return fail(err)
+			}
+			cs.Preds[strings.TrimSpace(rest[:i])] = &Pred{Name: strings.TrimSpace(rest[:i]), Params: splitList(rest[i+1 : j]), Body: e}
 		case "ghost":
 			curLemma, cur = nil, nil
 			sf, err := parseSpecFunc(rest)
